@@ -106,7 +106,8 @@ def gen_history(r, length, cache0=None):
                 k = (sh.base(nt), int(nrf))
                 ko = (sh.base(ot), orf)
                 if k not in sh.live and ko in sh.live:
-                    sh.live[k] = [nt, sh.live[ko][1]]
+                    old_special = sh.live[ko][0] != sh.base(sh.live[ko][0])
+                    sh.live[k] = [special(nt) if old_special else nt, sh.live[ko][1]]
         elif x < 0.57:
             t, rf = livekey()
             if r.random() < 0.2:
